@@ -29,12 +29,12 @@ pub static DEF: CheckDef = CheckDef {
 fn plan(t: Tier) -> Vec<ClassPlan> {
     let k = match t {
         Tier::Quick => 1,
-        Tier::Thorough => 40,
+        Tier::Thorough => 20,
     };
     vec![
-        ClassPlan { class: "roundtrip", cases: 12_000 * k, min_len: 0, max_len: 600 },
-        ClassPlan { class: "depthchain", cases: 8_000 * k, min_len: 4, max_len: 300 },
-        ClassPlan { class: "adversarial", cases: 160 * k, min_len: 4, max_len: 12 },
+        ClassPlan { class: "roundtrip", cases: 30_000 * k, min_len: 0, max_len: 600 },
+        ClassPlan { class: "depthchain", cases: 20_000 * k, min_len: 4, max_len: 300 },
+        ClassPlan { class: "adversarial", cases: 320 * k, min_len: 4, max_len: 12 },
     ]
 }
 
